@@ -87,6 +87,7 @@ variable (w : World) (i j d : Nat) (f : Ctl → Ctl)
   by_cases h : j = d <;> simp [apply, h]
 @[simp] theorem write_id : apply .write w = w := rfl
 @[simp] theorem validate_id : apply .validate w = w := rfl
+@[simp] theorem resolve_id : apply .resolvePad w = w := rfl
 end fields
 
 /-- closes goals `GF … (closeW/ctl/render … w)` from a hypothesis `GF … w` -/
@@ -214,7 +215,7 @@ theorem renderP_spec {s w} (b : Bool) (h : G s NoX w) :
   have hx := h1.xLive _ rfl
   unfold renderP initRender
   simp only [Generated.initRenderIterationDefault, Generated.initRenderFinalizeDefault,
-    Generated.initRenderCheckSizeDefault]
+    Generated.initRenderCheckSizeDefault, Generated.initRenderAllowScrollDefault]
   wpgo
   all_goals
     apply fin_end
@@ -226,7 +227,7 @@ theorem iterNewP_spec {s w} (loops : Int) (c : CacheArg) (b : Bool) (h : G s NoX
   obtain ⟨h1, h2⟩ := fresh (s := s) true h
   have hx := h1.xLive _ rfl
   unfold iterNewP initChecks initRender
-  simp only [Generated.initRenderCheckSizeDefault]
+  simp only [Generated.initRenderCheckSizeDefault, Generated.initRenderAllowScrollDefault]
   wpgo
   all_goals first
     | exact h
@@ -246,7 +247,7 @@ theorem fromDataP_spec {s w} (d : Nat) (fin : Bool) (loops : Int) (c : CacheArg)
 
 theorem mkData_spec {s w} (it : Bool) (b : Bool) (h : G s NoX w) :
     wp sem (injS s) (Prog.do (.newData .caller it true)) b (fun _ w' => G s NoX w') (fun _ _ w' => G s NoX w') w := by
-  wpgo; exact G_newData_caller it h
+  wpgo; exact G_newData_caller it true h
 
 theorem callerDrop_spec {s w} (d : Nat) (b : Bool) (h : G s NoX w) :
     wp sem (injS s) (Prog.do (.callerDrop d)) b (fun _ w' => G s NoX w') (fun _ _ w' => G s NoX w') w := by
@@ -257,6 +258,35 @@ theorem callerFinalize_spec {s w} (d : Nat) (b : Bool) (h : G s NoX w) (hd : d <
     wp sem (injS s) (finalizeP d .caller) b (fun _ w' => G s NoX w') (fun _ _ w' => G s NoX w') w := by
   wpgo
   exact G_finalizeW d .caller h hd hna (Or.inr ⟨rfl, ho⟩) (fun j => by simp [NoX])
+
+/-- a subclass operation on `_init_render_`: whatever fails — padding resolution, size validation,
+    the renderer — and in whatever mode, the invariant holds when it returns or raises, *before* any
+    GC step: with `finalize=True` the `finally` has finalized the data, with `finalize=False` the
+    data is the subclass's. No restriction on the fault (`injS false`), also for strict `G`. -/
+theorem initRenderOp_spec {s w} (it fin cs asc rp : Bool) (b : Bool) (h : G s NoX w) :
+    wp sem (injS false) (initRenderOpP it fin cs asc rp) b (fun _ w' => G s NoX w') (fun _ _ w' => G s NoX w') w := by
+  cases fin with
+  | true =>
+    obtain ⟨h1, h2⟩ := fresh (s := s) it h
+    have hx := (h1.xLive _ rfl).2.1
+    have hr := G_render _ h1 hx
+    have hra : ¬ Att (apply (.render w.nObjs) (apply (.newData .lib it false) w)) w.nObjs := by rwa [Att_render]
+    unfold initRenderOpP initRender
+    wpgo
+    all_goals try simp only [validate_id, resolve_id]
+    all_goals first
+      | exact fin_end _ hr hra
+      | exact fin_end _ h1 h2
+  | false =>
+    have h1 := G_newData_caller (s := s) it false h
+    have hx : ((apply (.newData .caller it false) w).objs w.nObjs).finalized = false := by simp [apply]
+    have hr := G_render _ h1 hx
+    unfold initRenderOpP initRender
+    wpgo
+    all_goals try simp only [validate_id, resolve_id]
+    all_goals first
+      | exact hr
+      | exact h1
 
 /-! ### `_animate_` and `draw` -/
 
@@ -416,7 +446,7 @@ theorem drawP_spec {s w} (animate cs : Bool) (loops : Int) (cache : CacheArg) (b
     intro t e hi ht; cases s <;> simp_all [injS]
   unfold drawP initRender
   wpgo
-  all_goals simp only [write_id, validate_id]
+  all_goals simp only [write_id, validate_id, resolve_id]
   all_goals first
     | exact fin_end _ hr hra
     | exact fin_end _ h1 h2
@@ -431,9 +461,17 @@ end
 
 /-! ### one history step -/
 
-/-- every fault plan of the history injects only what `inj` allows; in strict mode (`s = true`)
-    only `_render_` calls fail -/
-def Adm (s : Bool) (h : List (Op × Flt)) : Prop := ∀ x, x ∈ h → Admissible (injS s) x.2
+/-- operations whose programs are proved for *every* injectable fault, also in strict mode -/
+def isDirect : Op → Bool
+  | .initRender .. => true
+  | _ => false
+
+/-- what may be injected into an operation: in strict mode (`s = true`) only `_render_` calls fail —
+    except in a subclass operation on `_init_render_`, where anything may. -/
+def injOp (s : Bool) (op : Op) : Target → Exc → Prop := injS (s && !isDirect op)
+
+/-- every fault plan of the history injects only what `inj` allows (strict mode: see `injOp`) -/
+def Adm (s : Bool) (h : List (Op × Flt)) : Prop := ∀ x, x ∈ h → Admissible (injOp s x.1) x.2
 
 theorem post_G {s : Bool} {r : World × Flt × Option Exc}
     (h : Post (fun _ w' => G s NoX w') (fun _ _ w' => G s NoX w') r) : G s NoX r.1 := by
@@ -444,7 +482,7 @@ theorem post_GF {s : Bool} {w : World} {r : World × Flt × Option Exc}
   obtain ⟨w, f, e⟩ := r; cases e <;> exact h.g
 
 /-- one history step keeps the quiescent invariant -/
-theorem step_inv (s : Bool) (w : World) (op : Op) (f : Flt) (hadm : Admissible (injS s) f)
+theorem step_inv (s : Bool) (w : World) (op : Op) (f : Flt) (hadm : Admissible (injOp s op) f)
     (h : Inv s w) : Inv s (stepOp w op f).1 := by
   unfold stepOp
   by_cases hv : valid w op = true
@@ -452,30 +490,33 @@ theorem step_inv (s : Bool) (w : World) (op : Op) (f : Flt) (hadm : Admissible (
     apply G_dropRefs
     have h0 : GF s NoX w w := ⟨h.1, Fr.refl w⟩
     cases op with
-    | render => exact post_G (wp_sound sem (injS s) _ f _ _ w hadm (renderP_spec _ h.1))
-    | draw a cs l c b => exact post_G (wp_sound sem (injS s) _ f _ _ w hadm (drawP_spec a cs l c b _ h.1))
-    | iterNew l c => exact post_G (wp_sound sem (injS s) _ f _ _ w hadm (iterNewP_spec l c _ h.1))
-    | mkData it => exact post_G (wp_sound sem (injS s) _ f _ _ w hadm (mkData_spec it _ h.1))
+    | initRender it fin cs asc rp =>
+      exact post_G (wp_sound sem (injS false) _ f _ _ w (by simpa [injOp, isDirect] using hadm)
+        (initRenderOp_spec it fin cs asc rp _ h.1))
+    | render => exact post_G (wp_sound sem (injS s) _ f _ _ w (by simpa [injOp, isDirect] using hadm) (renderP_spec _ h.1))
+    | draw a cs l c b => exact post_G (wp_sound sem (injS s) _ f _ _ w (by simpa [injOp, isDirect] using hadm) (drawP_spec a cs l c b _ h.1))
+    | iterNew l c => exact post_G (wp_sound sem (injS s) _ f _ _ w (by simpa [injOp, isDirect] using hadm) (iterNewP_spec l c _ h.1))
+    | mkData it => exact post_G (wp_sound sem (injS s) _ f _ _ w (by simpa [injOp, isDirect] using hadm) (mkData_spec it _ h.1))
     | fromData d fin l c =>
       simp only [valid, Bool.and_eq_true, decide_eq_true_eq, Bool.not_eq_true'] at hv
       have hna : ¬ Att w d := by rw [← attached_iff]; simp [hv.2]
-      exact post_G (wp_sound sem (injS s) _ f _ _ w hadm (fromDataP_spec d fin l c _ h.1 hv.1.1 hv.1.2 hna))
+      exact post_G (wp_sound sem (injS s) _ f _ _ w (by simpa [injOp, isDirect] using hadm) (fromDataP_spec d fin l c _ h.1 hv.1.1 hv.1.2 hna))
     | next i =>
       simp only [valid, Bool.and_eq_true, decide_eq_true_eq] at hv
-      exact post_GF (wp_sound sem (injS s) _ f _ _ w hadm (nextP_spec i _ h0 hv.1))
+      exact post_GF (wp_sound sem (injS s) _ f _ _ w (by simpa [injOp, isDirect] using hadm) (nextP_spec i _ h0 hv.1))
     | close i =>
       simp only [valid, Bool.and_eq_true, decide_eq_true_eq] at hv
-      exact post_GF (wp_sound sem (injS s) _ f _ _ w hadm (closeP_spec i _ h0 hv.1))
-    | seek i n => exact post_GF (wp_sound sem (injS s) _ f _ _ w hadm (seekP_spec i n _ h0))
-    | bump i => exact post_GF (wp_sound sem (injS s) _ f _ _ w hadm (ctlP_spec i _ _ h0))
+      exact post_GF (wp_sound sem (injS s) _ f _ _ w (by simpa [injOp, isDirect] using hadm) (closeP_spec i _ h0 hv.1))
+    | seek i n => exact post_GF (wp_sound sem (injS s) _ f _ _ w (by simpa [injOp, isDirect] using hadm) (seekP_spec i n _ h0))
+    | bump i => exact post_GF (wp_sound sem (injS s) _ f _ _ w (by simpa [injOp, isDirect] using hadm) (ctlP_spec i _ _ h0))
     | dropIter i =>
       simp only [valid, Bool.and_eq_true, decide_eq_true_eq] at hv
-      exact post_GF (wp_sound sem (injS s) _ f _ _ w hadm (dropIterP_spec i _ h0 hv.1))
+      exact post_GF (wp_sound sem (injS s) _ f _ _ w (by simpa [injOp, isDirect] using hadm) (dropIterP_spec i _ h0 hv.1))
     | callerFinalize d =>
       simp only [valid, Bool.and_eq_true, decide_eq_true_eq, Bool.not_eq_true'] at hv
       have hna : ¬ Att w d := by rw [← attached_iff]; simp [hv.1.2]
-      exact post_G (wp_sound sem (injS s) _ f _ _ w hadm (callerFinalize_spec d _ h.1 hv.1.1.1 hna hv.2))
-    | callerDrop d => exact post_G (wp_sound sem (injS s) _ f _ _ w hadm (callerDrop_spec d _ h.1))
+      exact post_G (wp_sound sem (injS s) _ f _ _ w (by simpa [injOp, isDirect] using hadm) (callerFinalize_spec d _ h.1 hv.1.1.1 hna hv.2))
+    | callerDrop d => exact post_G (wp_sound sem (injS s) _ f _ _ w (by simpa [injOp, isDirect] using hadm) (callerDrop_spec d _ h.1))
   · simp only [hv]; exact h
 
 theorem init_inv (s : Bool) (fc : Nat) : Inv s (init fc) := by
